@@ -427,10 +427,70 @@ def r12_2_readers(ctx):
     ctx.require_min("R12.2", 15)
 
 
+
+
+
+def r12_6_byte_literal_agreement(ctx):
+    import base64 as _b64
+    import re as _re
+
+    ctx.rule("R12.6", "emitter and reader agree on byte literals: whatever Bytes(...) accepts and lowers to a `byte` pseudo-op - every base name it takes (long and short spellings), strings, raw bytes - is an operand extractBytesValue reads back to the bytes the literal denotes under the TEAL grammar")
+    b = ctx.model.find_class("Bytes", "pyteal.ast.bytes")
+    init, teal = b.methods["__init__"], b.methods["__teal__"]
+    ev = ctx.model.find_func("extractBytesValue", "pyteal.compiler.constants")
+    ctx.analysed(init.fq, teal.fq, ev.fq)
+    util, types_, cmod = ctx.model.module("pyteal.util"), ctx.model.module("pyteal.types"), ev.module
+    helpers = {x.name: x.node for m_ in (util, types_, cmod) for x in m_.all_funcs if x.cls is None}
+    OpS = op_sym(ctx.model)
+
+    def oracle(e, me):
+        t = u(e)
+        if t == "re":
+            return _re
+        if t == "base64":
+            return _b64
+        if t == "Op":
+            return OpS
+        if isinstance(e, ast.Call) and t == "super()":
+            return Sym("super", methods={"__init__": lambda: None})
+        if t == "TealBlock":
+            return Sym("TealBlock", methods={"FromOp": lambda options, op, *a: op})
+        raise Unknown()
+
+    cases = [("hello",), ("é",), (b"\x00\xff",), ("base16", "DEADBEEF"), ("base16", "0xdead"), ("hex", "dead"), ("b16", "dead"), ("base32", "MZXW6==="), ("base32", "MZXW6"), ("b32", "MZXW6"), ("base64", "Zm9v"), ("b64", "Zm9v"), ("base64", "Zg=="), ("utf8", "x"), ("BASE64", "Zm9v")]
+    for args in cases:
+        selfs = Sym("self:Bytes")
+        construct = f"Bytes{args!r}"
+        try:
+            run_function(init.node, {"self": selfs, "arg1": args[0], "arg2": args[1] if len(args) > 1 else None}, oracle, init.fq, permissive=True, resolver=lambda nm: helpers.get(nm))
+            op, _ = run_function(teal.node, {"self": selfs, "options": Sym("options")}, oracle, teal.fq, permissive=True, resolver=lambda nm: helpers.get(nm))
+        except Raised:
+            ctx.ok("R12.6", construct, "refused by the constructor", init.where)
+            continue
+        payload = op.args[0] if isinstance(op, OpVal) and op.op == "byte" and len(op.args) == 1 else None
+        if not isinstance(payload, str):
+            ctx.bad("R12.6", construct, f"lowered to {op!r}", teal.where)
+            continue
+        try:
+            want = TL.decode_byte_arg(payload)
+        except TL.LiteralError as e:
+            ctx.bad("R12.6", construct, f"emits `byte {payload}`, which the TEAL grammar does not read ({e})", teal.where)
+            continue
+        sym = _const_op(OpS, "byte", payload, 0)
+        try:
+            got, _ = run_function(ev.node, {"op": sym}, oracle, ev.fq, permissive=True, resolver=lambda nm: helpers.get(nm))
+            ok, why = got == want, f"emits `byte {payload}` = {want!r}; the constants pass reads {got!r}"
+        except Raised as r:
+            ok, why = False, f"emits `byte {payload}` (valid TEAL for {want!r}), which the constants pass refuses: {r.exc_text[:60]} - the program compiles only without assembleConstants"
+        ctx.check(ok, "R12.6", construct, why, ev.where, fact={"operand": payload})
+    ctx.require_min("R12.6", 12)
+
+
 def run(ctx):
     r12_1_sites(ctx)
     r12_2_readers(ctx)
     r12_5_int_operands(ctx)
+    r12_6_byte_literal_agreement(ctx)
     r12_4_index_range(ctx)
     from rules import c04 as _c04
 
